@@ -10,20 +10,20 @@ CONSTANTS
   EncChoices = {FALSE, TRUE}
   ByValueMax = 2
   AllowConflicts = FALSE
-  Features = {"apps", "storage"}
+  Features = {"psk", "storage"}
   Window = 1024
-  Retention = 3
+  Retention = 2
   BurstSizes = {1, 2}
-  PskIds = {}
-  PskValues = {"none"}
+  PskIds = {"k1", "k2"}
+  PskValues = {"none", "a", "b"}
   Deviations = {"F12"}
   MaxApps = 30
   Depth = 60
-  WProgress = 50
-  WPropose = 10
-  WCommit = 25
-  WApp = 50
-  WStore = 10
+  WProgress = 60
+  WPropose = 40
+  WCommit = 40
+  WApp = 0
+  WStore = 15
 INVARIANT EmitAtDepth
 INVARIANT Agreement
 INVARIANT EpochIsChainLength
@@ -32,6 +32,8 @@ INVARIANT PrivMatchesPub
 INVARIANT RecipientsEntitled
 INVARIANT NoDecapFailure
 INVARIANT PendingOnCurrentEpoch
+INVARIANT SendImpliesRecv
+INVARIANT CommittedListsLegal
 INVARIANT ProvidersAgree
 INVARIANT RetentionExact
 INVARIANT NoGenerationReuse
